@@ -41,7 +41,9 @@ pub fn sections(ctx: &Ctx) -> Vec<(&'static str, u64)> {
         ("w5", w5),
         ("w5-tokens", w5t),
         ("w2-tokens", w2t),
-        ("w2-tails", crate::w2::TAILS.len() as u64 * 3),
+        // (twice: a two-element order has to differ between six executions, which fails to
+        // happen once in 32)
+        ("w2-tails", crate::w2::TAILS.len() as u64 * 3 * 2),
     ]
 }
 
@@ -103,7 +105,7 @@ pub fn cases(ctx: &Ctx, section: &str, i: u64) -> Vec<Case> {
             vec![det_case(&label, fs, task, &ctx.corpus, &mut rng, s.min(4))]
         }
         "w2-tails" => {
-            let (label, fs, task) = crate::w2::tail_scenario((i / 3) as usize, (i % 3) as usize);
+            let (label, fs, task) = crate::w2::tail_scenario(((i / 3) as usize) % crate::w2::TAILS.len(), (i % 3) as usize);
             vec![det_case(&label, fs, task, &ctx.corpus, &mut rng, s)]
         }
         "w2-tokens" => {
